@@ -1,28 +1,12 @@
 import Girc.Base.GoLib
+import Girc.Base.GoSem
 /- Model of cap_sasl.go: SASL PLAIN/EXTERNAL encoders, base64.StdEncoding, the AUTHENTICATE chunk loop. -/
 namespace Girc.Model
 open Girc
 
 def saslChunkSize : Nat := 400
 
-def b64Char (n : Nat) : Byte :=
-  if n < 26 then UInt8.ofNat (0x41 + n)
-  else if n < 52 then UInt8.ofNat (0x61 + (n - 26))
-  else if n < 62 then UInt8.ofNat (0x30 + (n - 52))
-  else if n = 62 then 0x2B else 0x2F
-
-/-- `base64.StdEncoding.EncodeToString` (RFC 4648 with padding). -/
-def b64Encode : Bytes → Bytes
-  | a :: b :: c :: rest =>
-    let n := a.toNat * 65536 + b.toNat * 256 + c.toNat
-    b64Char (n / 262144) :: b64Char (n / 4096 % 64) :: b64Char (n / 64 % 64) :: b64Char (n % 64) :: b64Encode rest
-  | [a, b] =>
-    let n := a.toNat * 65536 + b.toNat * 256
-    [b64Char (n / 262144), b64Char (n / 4096 % 64), b64Char (n / 64 % 64), 0x3D]
-  | [a] =>
-    let n := a.toNat * 65536
-    [b64Char (n / 262144), b64Char (n / 4096 % 64), 0x3D, 0x3D]
-  | [] => []
+-- `b64Char` and `b64Encode` are declared in Girc/Base/GoSem.lean (stdlib table entry of the translator).
 
 def b64Val (c : Byte) : Option Nat :=
   if 0x41 ≤ c && c ≤ 0x5A then some (c.toNat - 0x41)
